@@ -25,8 +25,8 @@ PROPS = {
    rule="one evaluation = one simulated run as C12; every Mine op requests a template at that instant (block-assembler updates possibly still queued), seals it and feeds it to the node's own insert/preload/verify stages: the verdict must be Ok and, when the template names the current tip, the block must become the tip; transactions must appear parents-first; the reference model independently re-derives epoch, reward, DAO, chain root, window and uncle rules of every template block. non-trivial as C11",
    assumptions=["templates that name a stale parent are stored as side blocks and therefore NOT verified by the node (probes.stale_templates_not_verified); for those the reference model alone judges validity on the named parent (class stale_parent_template_invalid) - the same model is cross-checked against the node on every on-tip template", "HeaderVerifier (timestamp/PoW) is not part of the pipeline here"]),
  "C04": dict(quick=500, thorough=30000,
-   rule="one evaluation = one simulated run: a pool/chain history as in C11-C13 (submissions, templates mined, model-built competing branches and reorgs, clock advances) with 8-30 PROBE operations at arbitrary points. A probe is a transaction built against the context of that moment with at most one rule-breaking field placed exactly at, one unit before or one unit after the boundary of the evaluation position: since in all six kinds (absolute/relative x block number / epoch fraction / median time) plus malformed encodings (metric 0b11, reserved flag bits, index >= length, zero-length fraction), cellbase maturity (newest mature / oldest immature cellbase output, as input and as cell dep, maturity 0, 1/2, 3/4, 1, 2+1/3 epochs), capacity (outputs = inputs + 1 shannon, an output exactly at / one shannon below its occupied size, zero fee), liveness (spent / unknown / duplicated inputs, output of a pooled, committed or unknown parent; spent / unknown cell deps), header deps (main chain / delivered side chain / unknown) and a witness-dependent lock (passing / failing program). ProbePool asks the real pool (test_accept_transaction at a quiescent point; position = earliest commit block as documented in script/src/verify_env.rs); ProbeBlock lets the model propose the probe on the tip and commit it in the first legal block, which the node's block verification accepts or rejects (position = that block). Oracle: an evaluator written from the property text and RFC 0017 over the model's live-cell set; verdicts must agree in both directions. History independence follows because the oracle is a function of (transaction, context) only while contexts are reached through arbitrary histories (reorgs, pool states, caches). distinct = hash of the executed op/poll sequence; non-trivial = at least one probe was evaluated",
-   assumptions=["pool policy (minimum fee rate, ancestor limit, replacement of conflicting pooled transactions) is outside C04's rules: zero-fee probes go to the block path only; probes that conflict with pooled transactions or would exceed the ancestor limit are skipped and counted", "only accept/reject is compared, not which error is reported first", "dep groups, type scripts, the cycle limit and DAO-specific rules are not generated", "the block path is exercised through the chain service (ContextualBlockVerifier), the pool path through TxPoolService::test_accept_tx (dry run) - real submissions of the same shapes are covered by C11-C13's engine"]),
+   rule="one evaluation = one simulated run: a pool/chain history as in C11-C13 (submissions, templates mined, model-built competing branches and reorgs, clock advances) with 8-30 PROBE operations at arbitrary points. A probe is a transaction built against the context of that moment with at most one rule-breaking field placed exactly at, one unit before or one unit after the boundary of the evaluation position: since in all six kinds (absolute/relative x block number / epoch fraction / median time) plus malformed encodings (metric 0b11, reserved flag bits, index >= length, zero-length fraction), cellbase maturity (newest mature / oldest immature cellbase output, as input and as cell dep, maturity 0, 1/2, 3/4, 1, 2+1/3 epochs), capacity (outputs = inputs + 1 shannon, an output exactly at / one shannon below its occupied size, zero fee), liveness (spent / unknown / duplicated inputs, output of a pooled, committed or unknown parent; spent / unknown cell deps), header deps (main chain / delivered side chain / unknown) and a witness-dependent lock (passing / failing program). ProbePool asks the real pool (test_accept_transaction at a quiescent point; position = earliest commit block as documented in script/src/verify_env.rs); ProbeBlock lets the model propose the probe on the tip and commit it in the first legal block, which the node's block verification accepts or rejects (position = that block). Oracle: an evaluator written from the property text and RFC 0017 over the model's live-cell set; verdicts must agree in both directions. A second part (300 runs quick) runs in chain mode: candidate transactions get conflicting twins that break exactly one rule of their own (outputs exceed inputs by one shannon, an output one shannon below its occupied size, a NervosDAO phase-2 withdrawal claiming one shannon more than deposit plus interest or carrying an output below its occupied size) and blocks anywhere in a tree with reorganisations commit such a twin, a time-locked or a never-proposed transaction: no chain containing such a block may ever be attached, while every chain of valid transactions must be. History independence follows because the oracle is a function of (transaction, context) only while contexts are reached through arbitrary histories (reorgs, pool states, caches). distinct = hash of the executed op/poll sequence; non-trivial = at least one probe was evaluated",
+   assumptions=["pool policy (minimum fee rate, ancestor limit, replacement of conflicting pooled transactions) is outside C04's rules: zero-fee probes go to the block path only; probes that conflict with pooled transactions or would exceed the ancestor limit are skipped and counted", "only accept/reject is compared, not which error is reported first", "dep groups, type scripts and the cycle limit are not generated; NervosDAO rules only in the chain-mode part (maximum withdraw, occupied size of a withdrawal's outputs)", "the block path is exercised through the chain service (ContextualBlockVerifier), the pool path through TxPoolService::test_accept_tx (dry run) - real submissions of the same shapes are covered by C11-C13's engine"]),
 }
 
 
@@ -59,6 +59,31 @@ def run(prop, tier, args):
     except HarnessError:
         pass
     unknown = nc.triage(prop, agg)
+    if prop == "C04" and not args.seeds:
+        # chain-mode part: rule-breaking transactions (capacity, occupied size, NervosDAO maximum
+        # withdraw, time lock, missing proposal) committed by blocks anywhere in a tree with reorgs
+        nc.set_mode("")
+        n2 = 300 if tier == "quick" else 15000
+        lo2 = seed_lo(44)
+        agg2 = nc.sweep(prop, lo2, n2)
+        if agg2.harness:
+            log("harness errors:", agg2.harness[:3])
+            return 2
+        unknown += nc.triage(prop, agg2)
+        # merge the counters of the two parts
+        agg.runs += agg2.runs; agg.nontrivial += agg2.nontrivial; agg.steps += agg2.steps; agg.sim_ms += agg2.sim_ms
+        agg.inter |= agg2.inter; agg.nontrivial_inter |= agg2.nontrivial_inter; agg.states |= agg2.states
+        for k, v in agg2.faults.items():
+            agg.faults[k] = agg.faults.get(k, 0) + v
+        for k, v in agg2.probes.items():
+            agg.probes[k] = agg.probes.get(k, 0) + v
+        agg.fail += agg2.fail
+        try:
+            sc = nc.gen_scenario(prop, lo2)
+            agg.samples.append({"part": "chain mode", "seed": lo2, "cfg": sc["cfg"], "tree_blocks": len(sc["tree"]), "tree_head": sc["tree"][:3], "ops_head": sc["ops"][:20]})
+        except HarnessError:
+            pass
+        nc.set_mode("pool-")
     wall = time.time() - t0
     cov = nc.evidence_cov(agg, wall, cfg["rule"])
     cov["real_components"] = REAL
